@@ -324,6 +324,11 @@ theorem wrapI32_of_range (t : ℤ) (h0 : -(2:ℤ) ^ 31 ≤ t) (h1 : t < 2 ^ 31) 
   simp only
   split_ifs with h <;> omega
 
+theorem wrapI64_of_range (t : ℤ) (h0 : -(2:ℤ) ^ 63 ≤ t) (h1 : t < 2 ^ 63) : wrapI64 t = t := by
+  unfold wrapI64
+  simp only
+  split_ifs with h <;> omega
+
 theorem wrapU64_of_range (t : ℤ) (h0 : 0 ≤ t) (h1 : t < 2 ^ 64) : wrapU64 t = t.toNat := by
   unfold wrapU64; rw [Int.emod_eq_of_lt h0 h1]
 
